@@ -79,9 +79,13 @@ func runGrow(t ev.Failer, c *ev.Collector, srv *t38.Srv, g growCase) (labels []s
 		}
 	}
 	for k := 1; k <= g.N; k++ {
-		v, err := scan(k, "return _G[ARGV[1]] == nil and KEYS == nil and #ARGV == 1", g.Name)
+		v, err := scan(k, "return _G[ARGV[1]] == nil", g.Name)
 		if err != nil || !v.Equal(t38.Int(1)) {
-			c.Fail(t, "sandbox:new-global-created", fmt.Sprintf("the interpreter at depth %d of the pool shows global %q (or a stale KEYS/ARGV) to a later WHEREEVAL: COUNT = %v (err %v)", k, g.Name, v, err), rep)
+			c.Fail(t, "sandbox:new-global-created", fmt.Sprintf("the interpreter at depth %d of the pool shows global %q to a later WHEREEVAL: COUNT = %v (err %v)", k, g.Name, v, err), rep)
+		}
+		v, err = scan(k, "return KEYS == nil and EVAL_CMD == nil and DEADLINE == nil and #ARGV == 1", "w")
+		if err != nil || !v.Equal(t38.Int(1)) {
+			c.Fail(t, "hygiene:keys-argv-leaked", fmt.Sprintf("the interpreter at depth %d of the pool still holds an earlier call's KEYS/EVAL_CMD/DEADLINE (seen by a WHEREEVAL clause): COUNT = %v (err %v)", k, v, err), rep)
 		}
 	}
 	labels = append(labels, "depth-probed")
@@ -157,6 +161,49 @@ func runGrow(t ev.Failer, c *ev.Collector, srv *t38.Srv, g growCase) (labels []s
 			interp[v.Arr[0].Str] = true
 		}
 	}
+	// g.N scripts at once that are really cut short by TIMEOUT (each carries keys), i.e. g.N
+	// interpreters go back to the pool through the abort path; then every depth is probed
+	// through WHEREEVAL, which is given only ARGV
+	{
+		firsts := make([]string, g.N)
+		for i := range conns {
+			f, err := prepScript(conns[i], g.Mode, spinScript)
+			if err != nil {
+				t.Fatalf("SCRIPT LOAD: %v", err)
+			}
+			firsts[i] = f
+		}
+		out := make([]t38.Value, g.N)
+		var wg sync.WaitGroup
+		for i := range conns {
+			wg.Add(1)
+			go func(i int) {
+				defer wg.Done()
+				cmd := append([]string{"TIMEOUT", "0.05"}, scriptCmd(g.Mode, firsts[i], []string{fmt.Sprintf("to-key-%d", i)}, []string{g.Token})...)
+				v, err := conns[i].Do(cmd...)
+				if err != nil {
+					v = t38.Simple("transport: " + err.Error())
+				}
+				out[i] = v
+			}(i)
+		}
+		wg.Wait()
+		for i, v := range out {
+			if !v.IsErr() || !strings.Contains(v.Str, "timeout") {
+				c.Fail(t, "hygiene:timeout-not-enforced", fmt.Sprintf("TIMEOUT 0.05 %s of a never-ending script (number %d of %d at once) answered %s", strings.ToUpper(g.Mode), i, g.N, v), rep)
+			}
+		}
+		for k := 1; k <= g.N; k++ {
+			if d := filterWriteProbe(ctl, "grow", k, g.Token); d != "" {
+				c.Fail(t, "sandbox:whereeval-filter-can-write", fmt.Sprintf("after %d timed-out %s scripts: %s", g.N, strings.ToUpper(g.Mode), d), rep)
+			}
+			v, err := scan(k, "return KEYS == nil and EVAL_CMD == nil and DEADLINE == nil and #ARGV == 1", "w")
+			if err != nil || !v.Equal(t38.Int(1)) {
+				c.Fail(t, "hygiene:keys-argv-leaked", fmt.Sprintf("after %d %s scripts were cut short by TIMEOUT at the same time, the interpreter at depth %d of the pool still holds KEYS/EVAL_CMD/DEADLINE (seen by a WHEREEVAL clause): COUNT = %v (err %v)", g.N, strings.ToUpper(g.Mode), k, v, err), rep)
+			}
+		}
+		labels = append(labels, "timed-out-depth-probed")
+	}
 	// and the state on top, sequentially, in every variant
 	for _, mode := range []string{"eval", "evalsha", "evalro", "evalrosha", "evalna", "evalnasha"} {
 		v, err := runScript(ctl, mode, "return tostring(_G[ARGV[1]])", nil, []string{g.Name})
@@ -170,7 +217,7 @@ func runGrow(t ev.Failer, c *ev.Collector, srv *t38.Srv, g growCase) (labels []s
 func TestC18_PoolGrowth(t *testing.T) {
 	c := ev.New(prop, "poolgrowth", "exploration")
 	t.Cleanup(c.Flush)
-	c.Rule("the pool pre-builds 5 interpreters and creates more on demand; it is LIFO. Per case (generated global name, 6 ways of assigning it, token, N in 6..10, concurrent variant EVALNA/EVALNASHA/EVALRO/EVALROSHA): a SCAN with N WHEREEVAL clauses grows the pool to N states; then for every depth k = 1..N a SCAN whose k-th WHEREEVAL clause tries to create the global must be refused, and a SCAN whose k-th clause looks for the name must not find it (nor a stale KEYS/ARGV); then N connections run busy-loop + assignment at the same time (N different states in use): all refused; an EVAL while N-1 EVALNA scripts hold interpreters: refused; 2 x N concurrent checkers (EVALNA, EVALRO) must see the name nil and exactly their own KEYS/ARGV on every interpreter they land on (identities by tostring(_G), counted); finally the top state in all six variants. Non-trivial: every case (the depth probes reach N > 5 states by construction); distinct by template, mode, N.")
+	c.Rule("the pool pre-builds 5 interpreters and creates more on demand; it is LIFO. Per case (generated global name, 6 ways of assigning it, token, N in 6..10, concurrent variant EVALNA/EVALNASHA/EVALRO/EVALROSHA): a SCAN with N WHEREEVAL clauses grows the pool to N states; then for every depth k = 1..N a SCAN whose k-th WHEREEVAL clause tries to create the global must be refused, and a SCAN whose k-th clause looks for the name must not find it (nor a stale KEYS/ARGV); then N connections run busy-loop + assignment at the same time (N different states in use): all refused; an EVAL while N-1 EVALNA scripts hold interpreters: refused; N never-ending scripts with keys cut short by TIMEOUT 0.05 at the same time (all must answer the timeout error), then for every depth k a WHEREEVAL filter must be unable to write through tile38.pcall and must find KEYS/EVAL_CMD/DEADLINE nil; 2 x N concurrent checkers (EVALNA, EVALRO) must see the name nil and exactly their own KEYS/ARGV on every interpreter they land on (identities by tostring(_G), counted); finally the top state in all six variants. Non-trivial: every case (the depth probes reach N > 5 states by construction); distinct by template, mode, N.")
 	if ev.KnownActive(findingPoison) {
 		c.Excluded(findingPoison)
 	}
